@@ -5,7 +5,7 @@ from concurrent.futures import ThreadPoolExecutor
 import core
 
 OPS = ["contains_point", "is_valid", "made_valid", "union", "intersection", "contains_box", "collides", "expanded", "split",
-       "center_size", "projected", "collision_vector", "map", "rect_to_box", "box_to_rect", "new_empty"]
+       "center_size", "projected", "collision_vector", "map", "rect_to_box", "box_to_rect", "new_empty", "box_drop_z"]
 
 
 def key(rec):
